@@ -63,6 +63,8 @@ struct Counters {
     cap: usize,
     w_admitted: u32,
     w_refused: u32,
+    /// polls that woke the task itself and then finished it (`R`, `X`)
+    requeue_finish: u32,
     /// monitor failures detected inside a poll / drop (reported by `run_case` after the line)
     fails: Vec<(String, String)>,
 }
@@ -225,6 +227,34 @@ impl Future for Scripted {
                 lk(&self.sh).completed[id] = true;
                 let payload = Out { id, sh: self.sh.clone(), taken: false };
                 std::panic::panic_any(SendOut(payload))
+            }
+            // the task makes itself hot again during the very poll that finishes it
+            Some('R') => {
+                cx.waker().wake_by_ref();
+                let mut c = lk(&self.sh);
+                c.completed[id] = true;
+                c.requeue_finish += 1;
+                drop(c);
+                Poll::Ready(Out { id, sh: self.sh.clone(), taken: false })
+            }
+            Some('X') => {
+                cx.waker().wake_by_ref();
+                {
+                    let mut c = lk(&self.sh);
+                    c.completed[id] = true;
+                    c.requeue_finish += 1;
+                }
+                let payload = Out { id, sh: self.sh.clone(), taken: false };
+                std::panic::panic_any(SendOut(payload))
+            }
+            // a clone of the task waker outlives the task from its last poll on
+            Some('C') => {
+                let w = cx.waker().clone();
+                let mut c = lk(&self.sh);
+                c.wakers[id].push(w);
+                c.completed[id] = true;
+                drop(c);
+                Poll::Ready(Out { id, sh: self.sh.clone(), taken: false })
             }
             Some(c) => panic!("bad script letter {c}"),
         }
@@ -972,6 +1002,12 @@ fn run_case(case: &Case) -> Exec {
         if c.w_refused > 0 {
             w.case_tags.insert("case:W-refused".into());
         }
+        if c.requeue_finish > 0 {
+            w.case_tags.insert("case:self-wake-in-final-poll".into());
+        }
+        if (0..c.polls.len()).any(|id| c.last[id] == Some('C')) {
+            w.case_tags.insert("case:clone-in-final-poll".into());
+        }
         drop(c);
         // every join waker clone given to the executor has been released
         for (k, a) in &w.jw {
@@ -1057,7 +1093,12 @@ impl Prog {
                     t.wakers += 1;
                     t.runnable = false;
                 }
-                Some('r') | Some('x') => {
+                Some('r') | Some('x') | Some('R') | Some('X') => {
+                    t.g = Guess::Finished;
+                    t.runnable = false;
+                }
+                Some('C') => {
+                    t.wakers += 1;
                     t.g = Guess::Finished;
                     t.runnable = false;
                 }
@@ -1342,6 +1383,23 @@ fn step(p: &mut Prog, rng: &mut Rng, pr: &Prof, script: fn(&mut Rng) -> String) 
     }
 }
 
+/// about a third of the terminal letters use the forms that touch the task's own waker in the final poll:
+/// r -> R (wake self, then Ready) or C (keep a clone, then Ready); x -> X (wake self, then panic)
+fn new_terminal(mut s: String, rng: &mut Rng) -> String {
+    match s.chars().last() {
+        Some('r') if rng.chance(1, 3) => {
+            s.pop();
+            s.push(if rng.chance(2, 3) { 'R' } else { 'C' });
+        }
+        Some('x') if rng.chance(1, 3) => {
+            s.pop();
+            s.push('X');
+        }
+        _ => {}
+    }
+    s
+}
+
 /// the old unstructured script: 0..4 of p/s/c then mostly `r`, sometimes `x` or nothing
 fn gen_script(rng: &mut Rng) -> String {
     let n = rng.below(5);
@@ -1354,7 +1412,7 @@ fn gen_script(rng: &mut Rng) -> String {
         1 => s.push('x'),
         _ => s.push('r'),
     }
-    if s.is_empty() { "-".into() } else { s }
+    if s.is_empty() { "-".into() } else { new_terminal(s, rng) }
 }
 
 /// a script whose first `c` is reachable by ticking alone: s* c (c|s|p)* (r|x|nothing)
@@ -1372,7 +1430,7 @@ fn c_script(rng: &mut Rng) -> String {
         1 => s.push('x'),
         _ => s.push('r'),
     }
-    s
+    new_terminal(s, rng)
 }
 
 /// a script that completes by ticking alone (s* then r/x), sometimes with one `c` that needs a wake
@@ -1385,7 +1443,7 @@ fn fin_script(rng: &mut Rng) -> String {
         s.push('c');
     }
     s.push(if rng.chance(1, 4) { 'x' } else { 'r' });
-    s
+    new_terminal(s, rng)
 }
 
 /// mostly self-waking
@@ -1399,7 +1457,7 @@ fn s_script(rng: &mut Rng) -> String {
         1 => s.push('x'),
         _ => s.push('r'),
     }
-    s
+    new_terminal(s, rng)
 }
 
 /// kept waker clones: spawn c-scripts, tick, then wake / wdrop in every phase
@@ -1634,7 +1692,7 @@ fn fam_phase(rng: &mut Rng) -> Prog {
         }
         2 => {
             // after completion, result not taken
-            p.spawn(*rng.pick(&["r", "x", "sr", "sx", "ssr", "r"]));
+            p.spawn(*rng.pick(&["r", "x", "sr", "sx", "ssr", "r", "R", "X", "C", "sR", "sC"]));
             let mut guard = 0;
             while p.tasks[id].g == Guess::Running && guard < 5 {
                 p.tick();
@@ -1704,7 +1762,7 @@ fn fam_hostile(rng: &mut Rng) -> Prog {
 fn w_script(rng: &mut Rng) -> String {
     if rng.chance(1, 2) {
         return rng
-            .pick(&["cWr", "cWWr", "Wr", "sWr", "cWx", "cW", "cWp", "WWr", "csWr", "cWcr", "cr", "ccr", "cpr", "cWpr", "Wcr", "cWs"])
+            .pick(&["cWr", "cWWr", "Wr", "sWr", "cWx", "cW", "cWp", "WWr", "csWr", "cWcr", "cr", "ccr", "cpr", "cWpr", "Wcr", "cWs", "cWR", "WR", "cWC", "WX", "cR"])
             .to_string();
     }
     let mut s = String::new();
@@ -1722,7 +1780,7 @@ fn w_script(rng: &mut Rng) -> String {
         1 => s.push('x'),
         _ => s.push('r'),
     }
-    if s.is_empty() { "W".into() } else { s }
+    if s.is_empty() { "W".into() } else { new_terminal(s, rng) }
 }
 
 /// handle dropped / cancelled on another thread in every phase of the task, then ticks
@@ -1766,7 +1824,7 @@ fn fam_remote_drop(rng: &mut Rng) -> Prog {
         }
         4 => {
             // after completion, result not taken
-            p.spawn(*rng.pick(&["r", "x", "sr", "sx", "Wr"]));
+            p.spawn(*rng.pick(&["r", "x", "sr", "sx", "Wr", "R", "X", "C", "sR"]));
             let mut guard = 0;
             while p.tasks[id].g == Guess::Running && guard < 4 {
                 p.tick();
@@ -1985,6 +2043,63 @@ fn fam_remote_hostile(rng: &mut Rng) -> Prog {
     p
 }
 
+/// a task that makes itself hot during its final poll (R / X) while other tasks are hot behind it, followed by
+/// something that is linked to the hot tail (self-wake, wake of a parked task, spawn, W), then more ticks;
+/// also the variant where the finishing task is the only hot one
+fn fam_requeue(rng: &mut Rng) -> Prog {
+    let mut p = Prog::new(*rng.pick(&[2u32, 3, 4, 61, 61, 61]));
+    // tasks parked with a kept clone (woken later)
+    let parked = rng.below(3) as usize;
+    for _ in 0..parked {
+        p.spawn(*rng.pick(&["cp", "cr", "csr", "cs", "cR", "cc"]));
+    }
+    if parked > 0 {
+        p.tick();
+    }
+    let fin = ["R", "R", "X", "sR", "sX", "ssR", "R"];
+    let other = ["s", "sr", "ss", "sp", "sW", "p", "r", "Wr", "ssr", "sR", "sss", "c", "C"];
+    if rng.chance(1, 4) {
+        // the finishing task is the only hot one
+        p.spawn(*rng.pick(&fin));
+        p.tick();
+    } else {
+        let k = rng.range(2, 4) as usize;
+        let at = rng.below(k as u64) as usize;
+        for j in 0..k {
+            if j == at || rng.chance(1, 5) { p.spawn(*rng.pick(&fin)) } else { p.spawn(*rng.pick(&other)) }
+        }
+        p.tick();
+    }
+    for _ in 0..rng.range(1, 4) {
+        let ws = p.with_wakers();
+        match rng.below(8) {
+            0 | 1 if !ws.is_empty() => p.wake(*rng.pick(&ws)),
+            2 if !ws.is_empty() => p.rwake(*rng.pick(&ws)),
+            0..=3 => {
+                let s = if rng.chance(1, 3) { rng.pick(&fin).to_string() } else { s_script(rng) };
+                p.spawn(&s)
+            }
+            4 => {
+                let hs = p.with_handle();
+                if !hs.is_empty() {
+                    let id = *rng.pick(&hs);
+                    let w = p.pick_waker(id, rng);
+                    p.hpoll(id, w)
+                }
+            }
+            _ => p.tick(),
+        }
+    }
+    p.tick();
+    for _ in 0..rng.below(3) {
+        p.tick();
+    }
+    for _ in 0..rng.below(3) {
+        step(&mut p, rng, &PROF_HOT, s_script);
+    }
+    p
+}
+
 /// the original unstructured generator (kept as is)
 fn fam_random(rng: &mut Rng, name: String) -> Case {
     let mut lines = vec![format!("new {}", rng.pick(&[1u32, 2, 3, 61]))];
@@ -2071,7 +2186,7 @@ fn enumerate(maxlen: usize, n: u32, scripts: &[&str], prefix: &str, out: &mut Ve
                 let mut s2 = st;
                 s2.nsp += 1;
                 if st.nsp == 0 {
-                    s2.c0 = s.chars().filter(|c| *c == 'c').count() as u32;
+                    s2.c0 = s.chars().filter(|c| *c == 'c' || *c == 'C').count() as u32;
                     s2.h[0] = true;
                     s2.tick0 = false;
                 } else {
@@ -2152,7 +2267,7 @@ fn enumerate_r(maxlen: usize, new: &str, scripts: &[&str], prefix: &str, out: &m
                 let mut s2 = st;
                 let i = st.nsp;
                 s2.nsp += 1;
-                s2.c[i] = s.chars().filter(|c| *c == 'c').count() as u32;
+                s2.c[i] = s.chars().filter(|c| *c == 'c' || *c == 'C').count() as u32;
                 s2.h[i] = true;
                 s2.tick[i] = false;
                 go(format!("spawn {s}"), s2, ops, out);
@@ -2194,6 +2309,7 @@ fn enumerate_r(maxlen: usize, new: &str, scripts: &[&str], prefix: &str, out: &m
 const SCRIPTS_R: [&str; 4] = ["cWr", "cpr", "p", "Wr"];
 const SCRIPTS_A: [&str; 4] = ["r", "sr", "cx", "p"];
 const SCRIPTS_B: [&str; 4] = ["x", "ssr", "ccr", "cs"];
+const SCRIPTS_C: [&str; 4] = ["R", "sR", "cC", "X"];
 
 fn generate(tier: &str, rng: &mut Rng) -> Vec<Case> {
     let thorough = tier == "thorough";
@@ -2207,29 +2323,34 @@ fn generate(tier: &str, rng: &mut Rng) -> Vec<Case> {
         enumerate(5, 1, &SCRIPTS_B, "xe", &mut cases);
         enumerate(5, 2, &SCRIPTS_B, "xf", &mut cases);
         enumerate(5, 3, &SCRIPTS_B, "xg", &mut cases);
+        enumerate(6, 61, &SCRIPTS_C, "xh", &mut cases);
+        enumerate(5, 1, &SCRIPTS_C, "xi", &mut cases);
+        enumerate(5, 2, &SCRIPTS_C, "xj", &mut cases);
         enumerate_r(6, "new 61", &SCRIPTS_R, "xr", &mut cases);
         enumerate_r(5, "new 61 1", &SCRIPTS_R, "xs", &mut cases);
         enumerate_r(5, "new 1 2", &SCRIPTS_R, "xt", &mut cases);
     } else {
         enumerate(4, 1, &SCRIPTS_A, "xa", &mut cases);
         enumerate(3, 61, &SCRIPTS_A, "xb", &mut cases);
+        enumerate(3, 2, &SCRIPTS_C, "xh", &mut cases);
         enumerate_r(3, "new 61", &SCRIPTS_R, "xr", &mut cases);
         enumerate_r(3, "new 61 1", &SCRIPTS_R, "xs", &mut cases);
     }
     // 2. generated programs
-    let n = if thorough { 40_000 } else { 2_100 };
+    let n = if thorough { 40_000 } else { 1_750 };
     for i in 0..n {
         let (fam, prog) = match rng.below(100) {
-            0..=17 => {
+            0..=15 => {
                 cases.push(fam_random(rng, format!("rnd{i}")));
                 continue;
             }
-            18..=24 => ("hostile", fam_hostile(rng)),
-            25..=35 => ("waker", fam_waker(rng)),
-            36..=46 => ("join", fam_join(rng)),
-            47..=57 => ("phase", fam_phase(rng)),
-            58..=66 => ("hot", fam_hot(rng)),
-            67..=75 => ("rdrop", fam_remote_drop(rng)),
+            16..=21 => ("hostile", fam_hostile(rng)),
+            22..=31 => ("waker", fam_waker(rng)),
+            32..=41 => ("join", fam_join(rng)),
+            42..=51 => ("phase", fam_phase(rng)),
+            52..=59 => ("hot", fam_hot(rng)),
+            60..=67 => ("requeue", fam_requeue(rng)),
+            68..=75 => ("rdrop", fam_remote_drop(rng)),
             76..=85 => ("rwake", fam_remote_wake(rng)),
             86..=91 => ("rpoll", fam_remote_poll(rng)),
             92..=96 => ("smallq", fam_small_queue(rng)),
@@ -2244,6 +2365,6 @@ fn main() {
     run_harness(
         generate,
         run_case,
-        "cases: programs of local operations (spawn script, tick, hpoll, hdrop, hdetach, hcancel, wake, wdrop, xdrop, stat, woken) and sequential cross-thread operations (rhpoll, rhdrop, rhcancel, rwake, rwakeb, rwdrop run on a helper thread that the main thread waits for; script letter W = a clone of the task waker is woken on a helper thread inside the poll; `new n q` sets sync_queue_size q; the executor always has a driver waker that, when armed by rwakeb, makes the main thread tick once). (a) exhaustive, local: every program of 1..L operations over {spawn s, tick, hpoll 0 0, hpoll 0 1, hpoll 1 0, hdrop 0, hdrop 1, hdetach 0, hcancel 0, wake 0, wdrop 0, xdrop} that starts with a spawn, spawns at most 2 tasks and has no operation that is invalid by syntax alone (unknown id, handle already consumed, dead executor, no waker clone possible); quick: scripts {r,sr,cx,p}, L=4 for max_interval 1, L=3 for 61; thorough: scripts {r,sr,cx,p}, L=7 for max_interval 61, L=6 for 1 and 2; scripts {x,ssr,ccr,cs}, L=6 for 61, L=5 for 1, 2, 3. (b) exhaustive, cross-thread, same pruning: alphabet {spawn s, tick, rwake 0, rwake 1, rwakeb 0, rwakeb 1, wake 0, rwdrop 0, rhpoll 0 0, hpoll 0 1, rhdrop 0, rhcancel 0, hdrop 1, xdrop}, scripts {cWr,cpr,p,Wr}; quick: L=3 for (max_interval 61, queue 64) and (61, 1); thorough: L=6 for (61, 64), L=5 for (61, 1) and (1, 2). (c) generated (quick 2100, thorough 40000): 18% unstructured random local programs; 7% hostile (ids out of range, consumed handles, wake/wdrop without clone, operations on a dropped executor, max_interval in {0,1,2,4,5,61,100}); 11% waker (scripts s*c..: wake/wdrop while pending, after completion, as last holder, after hdrop/hcancel, after xdrop); 11% join (handle parked with one/two/the same waker before the completing tick, then poll/drop/detach/cancel/xdrop); 11% phase (hdrop/hdetach/hcancel/xdrop before the first tick, while pending, after completion, after xdrop); 9% hot (max_interval 1..3, 2-6 mostly self-waking tasks, many ticks); 9% rdrop (handle dropped/cancelled on another thread before the first tick, while pending cold, while hot, after completion, after xdrop, then ticks); 10% rwake (scripts with c and W: rwake before the tick whose poll contains a W, several rwake in a row, rwake mixed with wake, rwake of completed/cancelled tasks, rwakeb, small max_interval); 6% rpoll (rhpoll mixed with hpoll, same/other waker, before and after the completing tick); 5% smallq (sync queue of 1 or 2 slots: rwake refused as full, rwakeb through a full queue, mixes); 3% rhostile (cross-thread operations with bad ids, consumed handles, dropped executor, queue sizes 0..3). The generator keeps a syntactic shadow (scripts, ticks, consumed handles) only to bias choices; it never judges outputs. Every case ends with stat of every task and the wake log; after the last line the harness keeps ticking until the executor runs dry and no remotely woken task is owed a poll (starvation / lost-wake / reaping monitors) and then drops everything (drop-count monitors). distinct by text; non-trivial = some spawn succeeded and at least 4 lines",
+        "cases: programs of local operations (spawn script, tick, hpoll, hdrop, hdetach, hcancel, wake, wdrop, xdrop, stat, woken; script letters p s c r x, and R = wake self then Ready, X = wake self then panic, C = keep a waker clone then Ready) and sequential cross-thread operations (rhpoll, rhdrop, rhcancel, rwake, rwakeb, rwdrop run on a helper thread that the main thread waits for; script letter W = a clone of the task waker is woken on a helper thread inside the poll; `new n q` sets sync_queue_size q; the executor always has a driver waker that, when armed by rwakeb, makes the main thread tick once). (a) exhaustive, local: every program of 1..L operations over {spawn s, tick, hpoll 0 0, hpoll 0 1, hpoll 1 0, hdrop 0, hdrop 1, hdetach 0, hcancel 0, wake 0, wdrop 0, xdrop} that starts with a spawn, spawns at most 2 tasks and has no operation that is invalid by syntax alone (unknown id, handle already consumed, dead executor, no waker clone possible); quick: scripts {r,sr,cx,p}, L=4 for max_interval 1, L=3 for 61; thorough: scripts {r,sr,cx,p}, L=7 for max_interval 61, L=6 for 1 and 2; scripts {x,ssr,ccr,cs}, L=6 for 61, L=5 for 1, 2, 3; scripts {R,sR,cC,X}, quick L=3 for max_interval 2, thorough L=6 for 61, L=5 for 1 and 2. (b) exhaustive, cross-thread, same pruning: alphabet {spawn s, tick, rwake 0, rwake 1, rwakeb 0, rwakeb 1, wake 0, rwdrop 0, rhpoll 0 0, hpoll 0 1, rhdrop 0, rhcancel 0, hdrop 1, xdrop}, scripts {cWr,cpr,p,Wr}; quick: L=3 for (max_interval 61, queue 64) and (61, 1); thorough: L=6 for (61, 64), L=5 for (61, 1) and (1, 2). (c) generated (quick 1750, thorough 40000; about a third of the r/x terminal letters are R/C/X): 16% unstructured random local programs; 6% hostile (ids out of range, consumed handles, wake/wdrop without clone, operations on a dropped executor, max_interval in {0,1,2,4,5,61,100}); 10% waker (scripts s*c..: wake/wdrop while pending, after completion, as last holder, after hdrop/hcancel, after xdrop); 10% join (handle parked with one/two/the same waker before the completing tick, then poll/drop/detach/cancel/xdrop); 10% phase (hdrop/hdetach/hcancel/xdrop before the first tick, while pending, after completion, after xdrop); 8% hot (max_interval 1..3, 2-6 mostly self-waking tasks, many ticks); 8% requeue (a task finishing with R/X while other tasks are hot behind it or as the only hot task, then self-wakes, wakes of parked tasks, spawns, W, more ticks; max_interval 2..4 and 61); 8% rdrop (handle dropped/cancelled on another thread before the first tick, while pending cold, while hot, after completion, after xdrop, then ticks); 10% rwake (scripts with c and W: rwake before the tick whose poll contains a W, several rwake in a row, rwake mixed with wake, rwake of completed/cancelled tasks, rwakeb, small max_interval); 6% rpoll (rhpoll mixed with hpoll, same/other waker, before and after the completing tick); 5% smallq (sync queue of 1 or 2 slots: rwake refused as full, rwakeb through a full queue, mixes); 3% rhostile (cross-thread operations with bad ids, consumed handles, dropped executor, queue sizes 0..3). The generator keeps a syntactic shadow (scripts, ticks, consumed handles) only to bias choices; it never judges outputs. Every case ends with stat of every task and the wake log; after the last line the harness keeps ticking until the executor runs dry and no remotely woken task is owed a poll (starvation / lost-wake / reaping monitors) and then drops everything (drop-count monitors). distinct by text; non-trivial = some spawn succeeded and at least 4 lines",
     );
 }
